@@ -87,6 +87,17 @@ err_t bignStart(void* state, const bign_params* params)
 	return E.start_ret == 1 ? ERR_OK : ERR_BAD_PARAMS;
 }
 
+#if (L == 96)
+size_t bign96Start_keep(bign_deep_i deep) { return ENV_KEEP + (deep ? deep(NW, ENV_F_DEEP, ENV_EC_D, ENV_EC_DEEP) : 0); }
+err_t bign96Start(void* state, const bign_params* params)
+{
+	/* ensures of bign96Start: success only for a 192-bit odd group order (2^191 < q < 2^192) */
+	err_t code = bignStart(state, params);
+	if (code == ERR_OK && (!(S.order[NW - 1] >> (B_PER_W - 1)) || !(S.order[0] & 1))) { E.start_ret = -1; return ERR_BAD_PARAMS; }
+	return code;
+}
+#endif
+
 /* ---- field import / export */
 static bool_t env_from(word b[], const octet a[], const struct qr_o* r, void* stack)
 {
@@ -186,7 +197,7 @@ void beltHashStart(void* state)
 }
 void beltHashStepH(const void* buf, size_t count, void* state) { REQ(count <= SNAP, "beltHashStepH: length"); REQ(__CPROVER_r_ok(buf, count), "beltHashStepH: buffer"); h_rec(H_STEPH, buf, count); }
 void beltHashStepG(octet hash[32], void* state) { h_rec(H_G, hash, 32); hv_octets(hash, 32); }
-void beltHashStepG2(octet hash[], size_t hash_len, void* state) { REQ(hash_len <= 32, "beltHashStepG2: length"); h_rec(H_G2, hash, hash_len); hv_octets(hash, hash_len); }
+void beltHashStepG2(octet hash[], size_t hash_len, void* state) { size_t j; REQ(hash_len <= 32, "beltHashStepG2: length"); h_rec(H_G2, hash, hash_len); hv_octets(hash, hash_len); for (j = 0; j < 32; ++j) E.h_out[j] = j < hash_len ? hash[j] : 0; }
 bool_t beltHashStepV(const octet hash[32], void* state) { h_rec(H_V, hash, 32); E.h_ret = nondet_int() ? TRUE : FALSE; return E.h_ret; }
 bool_t beltHashStepV2(const octet hash[], size_t hash_len, void* state) { REQ(hash_len <= 32, "beltHashStepV2: length"); REQ(__CPROVER_r_ok(hash, hash_len), "beltHashStepV2: buffer"); h_rec(H_V2, hash, hash_len); E.h_ret = nondet_int() ? TRUE : FALSE; return E.h_ret; }
 
